@@ -100,8 +100,9 @@ def cases(tier: str, seed: int) -> list[dict]:
             if rep % 2 == 0:
                 worlds.append((w, {"a": "SaveOpen", "period": period, "civil": list(date) + list(tm), "sec": 0, "off": off,
                                    "style": style, "onestep": rng.randrange(2)}))
-    for w, e in worlds:
-        out.append({"src": "gen", "world": w, "events": [e]})
+    vias = ["memory", "file", "dask", "memory", "emsopen"]      # how the dataset that is saved is held (viafile.hold)
+    for k, (w, e) in enumerate(worlds):
+        out.append({"src": "gen", "world": dict(w, via=vias[k % len(vias)]), "events": [e]})
     return out
 
 
@@ -134,7 +135,8 @@ def execute(case: dict) -> dict:
     w["extras"] = [dict(x) for x in w["extras"]]
     tdim = w["extras"][0]
     tdim["coord"] = dict(tdim["coord"], encoding={"units": units, "calendar": "proleptic_gregorian"})
-    ds = W.build(w)
+    from .. import viafile
+    ds = viafile.hold_ds(w, W.build(w))
     e.setdefault("onestep", -1)
     if e["onestep"] >= 0:
         # one time step selected first: the time coordinate becomes a scalar (dimensionless) coordinate
@@ -167,3 +169,7 @@ def execute(case: dict) -> dict:
     e["obs"] = outcome(run)
     rec["events"].append(e)
     return rec
+
+
+from .. import viafile as _viafile  # noqa: E402
+execute = _viafile.closing(execute)
